@@ -162,6 +162,19 @@ def vf1(ctx, c):
                   "VirtualFile.add_coco_file must append the new file after the ones already stored; it does %s" % [U(n)[:60] for n in others + stores], repo.loc(ac, ac.node))
     else:
         c.undecided("add_coco_file", "append-not-found", "", repo.loc(ac, ac.node))
+    # no container swallows the error of a file that could not be added (the caller would save the image without it and report success)
+    for cl_ in repo.classes.values():
+        m_ = cl_.methods.get("add_files")
+        if m_ is None:
+            continue
+        for tr_ in [n for n in ast.walk(m_.node) if isinstance(n, ast.Try)]:
+            if any(isinstance(x, ast.Call) and U(x.func).endswith(".add_file") for b_ in tr_.body for x in ast.walk(b_)):
+                for h in tr_.handlers:
+                    if not any(isinstance(y, ast.Raise) for y in ast.walk(h)):
+                        c.finding("%s.add_files:errors" % cl_.name, "an error from add_file is caught and not raised again (%s)" % (U(h.type) if h.type is not None else "bare except"),
+                                  "%s.add_files catches %s around add_file and carries on: a file that does not fit is dropped, save_virtual_file writes the image without it and "
+                                  "the command reports success - the caller is promised an error and an untouched host file" % (cl_.name, U(h.type) if h.type is not None else "everything"),
+                                  repo.loc(m_, h))
     # add_files of the container base: in order
     af = repo.method("VirtualFileContainer", "add_files")
     loops = [n for n in ast.walk(af.node) if isinstance(n, ast.For)]
@@ -256,6 +269,23 @@ def vf5(ctx, c):
             problems.append("the source file is never written")
         if adds and sets and writes and not (adds[0] < sets[-1] < writes[-1]):
             problems.append("the steps run in the order %s" % [e[2] for e in events if e[0] == "call" and e[2] in ("add_files", "set_buffer", "write_file")])
+        # with --append on an existing target the same pipeline runs on the list as it stands: saving does not re-open the target
+        env2 = dict(env)
+        env2.update({"self.virtual_file_type": kv, "self.file_exists": True, ap: True, "self.coco_file_list": _Desc("self.coco_file_list")})
+        ev2, nt2 = [], []
+        try:
+            _run_concrete(body_without_doc(flat), env2, ev2, nt2, hooks={("os.path", "exists"): True, ("os.path", "isfile"): True})
+        except RecursionError:
+            nt2.append("recursion")
+        reopen = [e for e in ev2 if e[0] == "call" and e[1] == "self" and e[2] in ("open_virtual_file", "get_coco_files")]
+        relist = repr(env2.get("self.coco_file_list")) != "self.coco_file_list"
+        adds2 = [e for e in ev2 if e[0] == "call" and e[1] == obj and e[2] == "add_files"]
+        clean_until_reopen = bool(reopen) and not any(e[0] == "note" for e in ev2[:ev2.index(reopen[0])])
+        if clean_until_reopen or ((reopen or relist) and not nt2):
+            problems.append("with --append the target is re-opened inside save (%s): the file list built by the caller, which holds the stored files plus the new one, is replaced "
+                            "by what is on the host" % (reopen[0][2] if reopen else "coco_file_list rebound"))
+        elif not nt2 and not adds2:
+            problems.append("with --append on an existing target the files are never added to the %s" % kcls)
         if not problems:
             c.ok(site, "fresh %s, add_files(whole list), set_buffer(its buffer), write_file" % kcls, where)
         elif notes:
@@ -296,6 +326,17 @@ def vf5(ctx, c):
         idx_g = t.index("get_coco_files")
         c.check(idx_r < idx_g, "open_virtual_file:loads", "reads the target, lists its files, keeps them", "files are listed before the target is read",
                 "open_virtual_file lists the files before reading the target", wo)
+
+
+def _module_prelude(fn0, env):
+    """evaluate the module-level class definitions and assignments of fn0's module into env (tables of rows the function loops over)"""
+    from ..concrete import run_concrete as _rcp
+    body = [st for st in fn0.module.tree.body if isinstance(st, (ast.ClassDef, ast.Assign, ast.AnnAssign))]
+    ev, nt = [], []
+    try:
+        _rcp(body, env, ev, nt)
+    except Exception:
+        pass
 
 
 def _module_resolver(repo, rel):
@@ -343,6 +384,7 @@ def cli4(ctx, c):
                     return list(_l) if r is src else Desc("%r.list_files()" % r)
                 events, notes = [], []
                 funcs = {n_: f_.node for n_, f_ in fn0.module.funcs.items() if n_ not in ("main", "parse_arguments")} if hasattr(fn0.module, "funcs") else {}
+                _module_prelude(fn0, env)
                 end = run_concrete(body_without_doc(flat), env, events, notes, hooks={("*", "list_files"): listing_hook}, resolver=None, functions=funcs)
                 n_eval += 1
                 site = "file_util --%s%s%s" % (sw, "" if files is None else " --files " + " ".join(files), " --append" if append else "")
@@ -394,9 +436,9 @@ def cli4(ctx, c):
                         texts = [t_ for a_, t_ in problems if a_ == aspect]
                         c.finding("file_util --%s:%s:%s" % (sw, aspect, "all files" if files is None else "--files"), texts[0][:120], "%s: %s" % (site, "; ".join(texts)), where)
     # --to_bin refuses an image that holds more than one file, whatever --files selects
-    for files in (None, ["beta"], ["nosuch"]):
+    for files, n_on_image in ((None, 3), (["beta"], 3), (["nosuch"], 3), (None, 2), (["beta"], 2)):
         listing = []
-        for i_, nm in enumerate(names):
+        for i_, nm in enumerate(names[:n_on_image]):
             o = Obj("CoCoFile", label="<file %d>" % i_)
             o.attrs["name"] = nm
             listing.append(o)
@@ -412,16 +454,17 @@ def cli4(ctx, c):
             return list(_l) if r is src else Desc("%r.list_files()" % r)
         events, notes = [], []
         funcs = {n_: f_.node for n_, f_ in fn0.module.funcs.items() if n_ not in ("main", "parse_arguments")} if hasattr(fn0.module, "funcs") else {}
+        _module_prelude(fn0, env)
         end = run_concrete(body_without_doc(flat), env, events, notes, hooks={("*", "list_files"): listing_hook2}, functions=funcs)
         n_eval += 1
         saves = [e for e in events if e[0] == "call" and e[2] == "save_virtual_file"]
-        site = "file_util --to_bin (3 files on the image)%s" % ("" if files is None else " --files " + " ".join(files))
+        site = "file_util --to_bin (%d files on the image)%s" % (n_on_image, "" if files is None else " --files " + " ".join(files))
         if not saves and end == "exit":
             c.ok(site, "refused: exits without saving", where)
         elif notes:
             c.undecided(site, "not-evaluable", "; ".join(sorted(set(notes)))[:100], where)
         else:
-            c.finding("file_util --to_bin:several files", "an image holding three files is not refused%s" % ("" if files is None else " when --files names one"),
+            c.finding("file_util --to_bin:several files", "an image holding %s files is not refused%s" % ({2: "two", 3: "three"}[n_on_image], "" if files is None else " when --files names one"),
                       "%s: %s; --to_bin writes a raw binary, which holds one file, and must refuse an image that holds more than one" %
                       (site, "the target is saved" if saves else "the run ends with %s" % end), where)
     c.ok("file_util.main", "%d configurations evaluated" % n_eval, where, nontrivial=False)
@@ -450,6 +493,7 @@ def cli5(ctx, c):
                     env["args.%s" % sw] = "target.img"
                     events, notes = [], []
                     funcs = {n_: f_.node for n_, f_ in fn0.module.funcs.items() if n_ not in ("main", "parse_arguments")} if hasattr(fn0.module, "funcs") else {}
+                    _module_prelude(fn0, env)
                     end = run_concrete(body_without_doc(flat), env, events, notes, hooks={("new", "Program"): {"name": pname}}, functions=funcs)
                     n_eval += 1
                     eff = pname or cname
@@ -521,6 +565,39 @@ def cli5(ctx, c):
                         for aspect in sorted({a_ for a_, _ in problems}):
                             texts = [t_ for a_, t_ in problems if a_ == aspect]
                             c.finding("assembler --%s:%s:%s" % (sw, aspect, "named" if eff else "unnamed"), texts[0][:120], "%s: %s" % (site, "; ".join(texts)), where)
+    # several output switches at once: each is served on its own terms (a missing name stops the cassette and the disk file, never the raw binary)
+    KV = {"to_bin": "BINARY", "to_cas": "CASSETTE", "to_dsk": "DISK"}
+    for combo in (("to_bin", "to_cas"), ("to_bin", "to_dsk"), ("to_bin", "to_cas", "to_dsk")):
+        for pname in ("PROG", None):
+            env = dict(ctx.env)
+            for cn in ("VirtualFile", "SourceFile", "Program", "CoCoFile"):
+                env[cn] = ClsRef(cn)
+            env.update({"args.filename": "x.asm", "args.symbols": False, "args.print": False, "args.to_bin": None, "args.to_cas": None, "args.to_dsk": None,
+                        "args.name": None, "args.append": False, "args.width": None})
+            for sw_ in combo:
+                env["args.%s" % sw_] = "target_%s.img" % sw_
+            events, notes = [], []
+            funcs = {n_: f_.node for n_, f_ in fn0.module.funcs.items() if n_ not in ("main", "parse_arguments")} if hasattr(fn0.module, "funcs") else {}
+            _module_prelude(fn0, env)
+            run_concrete(body_without_doc(flat), env, events, notes, hooks={("new", "Program"): {"name": pname}}, functions=funcs)
+            n_eval += 1
+            vfs = [e[3] for e in events if e[0] == "new" and e[1] == "VirtualFile"]
+            site = "assembler %s (%s)" % (" ".join("--" + x for x in combo), "NAM %s" % pname if pname else "no name")
+            missing = []
+            for sw_ in combo:
+                need_ = sw_ == "to_bin" or bool(pname)
+                tgt = next((o for o in vfs if any(isinstance(a, Obj) and ("target_%s.img" % sw_) in getattr(a, "args", []) for a in getattr(o, "args", []))), None)
+                saved = tgt is not None and any(e[0] == "call" and len(e) > 6 and e[6] is tgt and e[2] == "save_virtual_file" for e in events)
+                if need_ and not saved:
+                    missing.append("--%s is given but its %s file is not saved" % (sw_, KV[sw_]))
+                if not need_ and saved:
+                    missing.append("--%s saves a %s file although the program has no name" % (sw_, KV[sw_]))
+            if not missing:
+                c.ok(site, "each switch served on its own terms", where)
+            elif notes:
+                c.undecided(site, "not-evaluable", "%s; not evaluated: %s" % (missing[0][:80], "; ".join(sorted(set(notes)))[:80]), where)
+            else:
+                c.finding("assembler several switches:%s" % ("named" if pname else "unnamed"), missing[0][:110], "%s: %s" % (site, "; ".join(missing)), where)
     c.ok("assembler.main", "%d configurations evaluated" % n_eval, where, nontrivial=False)
 
 
@@ -1134,11 +1211,15 @@ def cli1(ctx, c):
                 "assembler.py marks the saved file with %s=%s; a machine-language binary file is %s=%02X" % (k, U(node) if node is not None else None, k, v), repo.loc(fn, cf[0]))
     # process() runs on that program with the lines read from args.filename
     pc = [n for n in ast.walk(main_flat) if isinstance(n, ast.Call) and U(n.func) == "%s.process" % prog]
-    c.check(len(pc) == 1 and re.fullmatch(r"\w+\.get_buffer\(\)", U(pc[0].args[0])) is not None, "assembler.main:process", "the same Program assembles the source read", "process calls %s" % [U(x) for x in pc],
+    if not by_evaluation:
+      c.check(len(pc) == 1 and re.fullmatch(r"\w+\.get_buffer\(\)", U(pc[0].args[0])) is not None, "assembler.main:process", "the same Program assembles the source read", "process calls %s" % [U(x) for x in pc],
             "assembler.py does not assemble the source it read with the Program it saves", where)
     # per switch blocks
     blocks = [n for n in body_without_doc(main_flat) if isinstance(n, ast.If) and re.fullmatch(r"args\.to_(bin|cas|dsk)", U(n.test))]
-    c.floor("save blocks", len(blocks), 3)
+    if by_evaluation:
+        blocks = []         # per-switch sequence, file added and no-name guard: decided by CLI-5
+    else:
+        c.floor("save blocks", len(blocks), 3)
     for b in blocks:
         sw = U(b.test).split(".")[1]
         adds = _calls(b, ".add_coco_file")
@@ -1203,6 +1284,18 @@ def cli3(ctx, c):
     fn0 = repo.func("file_util.py", "main")
     where = repo.loc(fn0, fn0.node)
     node = flatten(repo, fn0, depth=2)
+    # when CLI-4 has evaluated every configuration of file_util.main, selection, order, case and the refusal are decided there
+    from ..report import Collector as _Col4, UNDECIDED as _UND4
+    sub4 = ctx.cache.get(("rule", "CLI-4"))
+    if sub4 is None:
+        sub4 = _Col4("CLI-4")
+        try:
+            cli4(ctx, sub4)
+        except Exception:
+            sub4 = None
+    if sub4 is not None and sub4.insts and all(i.verdict != _UND4 for i in sub4.insts):
+        c.ok("file_util.main", "selection, order, letter case, save-once and the --to_bin refusal are decided by evaluation (CLI-4)", where, nontrivial=False)
+        return
     # the include list and its case normalisation
     lst = None
     norm = []
